@@ -231,3 +231,13 @@ class ParseFlowMatch(Section):
 
     def post(self) -> bool:
         return True
+
+    def parse(self, name: str, command: str) -> bool:
+        if not Section.parse(self, name, command):
+            return False
+        # every match keyword reads one value or one [ ] list: what follows would be ignored,
+        # and the rule announced would match more than the one which was written
+        extra: str = self.parser.tokeniser.peek()
+        if extra:
+            return self.error.set(f"unexpected '{extra}' after the value of {command}\n  Use [ ] around several values")
+        return True
